@@ -232,7 +232,9 @@ impl Prop for C11Prop {
             &[SrcFault::WouldBlock, SrcFault::WouldBlock, SrcFault::Interrupted, SrcFault::Other(0), SrcFault::Eof(0)]
         };
         let nf = rng.range(1, 8);
-        let faults = gen::gen_src_faults(rng, len, nf, kinds);
+        let mut faults = gen::gen_src_faults(rng, len, nf, kinds);
+        let marks = gen::marks_of(&segs);
+        gen::bias_src(rng, &mut faults, &marks);
         let mut l = LinkScn::new("C11", "seeded", fe, BufKind::Vec);
         l.segs = segs;
         l.src = faults;
